@@ -140,6 +140,15 @@ def check_success(case):
             out.append(fail('file-bytes', f'{cs}: payloads in file {payloads!r}, expected {want!r}', charset=cs))
     except Exception as exc:  # noqa: BLE001
         out.append(fail('file-bytes', f'{cs}: strict decoder: {exc!r}', charset=cs))
+    # the with-form of MidiFile: the charset must not stay in force inside the block once load / save have returned
+    try:
+        with mido.MidiFile(file=io.BytesIO(b), charset=cs) as inside:
+            out += probe('load (inside a with-block)', [t for _, t in case['texts']])
+            inside.save(file=io.BytesIO())
+            out += probe('save (inside a with-block)')
+        out += probe('with-block exit')
+    except Exception as exc:  # noqa: BLE001
+        out.append(fail('load-raises', f'{cs} (with-block): {exc!r}', exc=exc_sig(exc), charset=cs))
     for source, data in (('saved', b), ('reference', reference_bytes(case))):
         try:
             back = mido.MidiFile(file=io.BytesIO(data), charset=cs)
@@ -289,7 +298,7 @@ def base_cases(draw):
     for _ in range(draw(st.integers(1, 4))):
         t = draw(st.sampled_from(sorted(TEXT_ATTR)))
         alpha = st.characters(codec=cs, exclude_categories=['Cs'])
-        opts = [st.text(alpha, max_size=8), st.sampled_from(['', 'a', 'abc', 'A b'])]
+        opts = [st.text(alpha, max_size=8), st.sampled_from(['', 'a', 'abc', 'A b', 'abc\x00', '\x00', 'pad\x00\x00'])]
         if cs != 'ascii':
             opts.append(st.text(st.characters(codec=cs, min_codepoint=0x80, exclude_categories=['Cs']), max_size=4))
         text = draw(st.one_of(*opts))
